@@ -168,13 +168,16 @@ def is_irreducible_ref(a, p, bf_limit=4000):
     return is_irreducible_rabin(a, p)
 
 
-def next_monic_irreducible(x, p, is_irr=is_irreducible_ref):
+def next_monic_irreducible(x, p, is_irr=is_irreducible_ref, limit=None):
     """Least integer y > x whose base-p digit polynomial is monic and irreducible (the integer order is the
-    order by degree, then lexicographic from the leading coefficient).  Returns (y, number_of_candidates_tested)."""
+    order by degree, then lexicographic from the leading coefficient).  Returns (y, number_of_candidates_tested);
+    (None, tested) if more than `limit` candidates would have to be tested."""
     y = x
     tested = 0
     while True:
         y += 1
+        if limit is not None and tested >= limit:
+            return None, tested
         f = R.pfrom_int(y, p)
         if f[-1] != 1:
             y = p ** len(f) - 1  # no monic polynomial of this degree above y: continue with degree + 1
